@@ -119,8 +119,11 @@ AxisFn = tp.Callable[
 
 
 def _update_variable_sharding_metadata(
-    tree, transform_metadata, axis_fn: AxisFn
+    tree, transform_metadata, axis_fn: AxisFn, *, vectorized_only: bool = False
 ):
+  # ``vectorized_only``: scan's NodeStates hold only the states of the filters
+  # with an int axis (carry and broadcast states travel separately), in the
+  # order of those filters, while ``metadata.axes`` lists every filter's axis.
   def _update_axes_fn(node_states):
     if isinstance(node_states, extract.NodeStates) and isinstance(
       node_states.metadata, (StateAxes, int)
@@ -131,12 +134,17 @@ def _update_variable_sharding_metadata(
         state = axis_fn(state, node_states.metadata, transform_metadata)
         return node_states.replace(states=(state,))
       else:
-        states_out: list[graph.GraphState | variablelib.VariableState] = []
-        for state, axis in zip(node_states.states, node_states.metadata.axes):
-          assert isinstance(state, graph.State | variablelib.VariableState)
+        axes = node_states.metadata.axes
+        if vectorized_only:
+          axes = tuple(axis for axis in axes if isinstance(axis, int))
+        states_out: list[graph.GraphState | variablelib.VariableState] = list(
+          node_states.states
+        )
+        for i, axis in enumerate(axes):
           if isinstance(axis, int):
-            state = axis_fn(state, axis, transform_metadata)
-          states_out.append(state)
+            state = states_out[i]
+            assert isinstance(state, graph.State | variablelib.VariableState)
+            states_out[i] = axis_fn(state, axis, transform_metadata)
         return node_states.replace(states=tuple(states_out))
     return node_states
 
@@ -1006,7 +1014,10 @@ class ScanFn:
 
     if spmd.PARTITION_NAME in self.transform_metadata:
       pure_args = _update_variable_sharding_metadata(
-          pure_args, self.transform_metadata, spmd.remove_axis
+          pure_args,
+          self.transform_metadata,
+          spmd.remove_axis,
+          vectorized_only=True,
       )
 
     args: tuple = extract.from_tree(
@@ -1083,6 +1094,7 @@ class ScanFn:
         (pure_args_out, pure_out),
         self.transform_metadata,
         spmd.add_axis,
+        vectorized_only=True,
       )
 
     # extract the pure carry from the pure args
